@@ -44,6 +44,15 @@ def x_lookup( ctx ):
                  'a symbol must be looked up as itself, then through the ANY wildcard, then through the no-input NON transition' )
         return res
     res.ok( src, exact[0].stmt, 'exact lookup uses the encoded symbol' )
+    # the table is consulted with the encoded symbol and the two sentinels only: a look-up by the raw argument finds, for the sentinel True
+    # ( == 1, same hash ), the transition stored for the symbol 1 - from_regex asks states[pre].get( True, True ) to decide whether an
+    # explicit non-transition is redundant, and would leave excluded symbols to the live wildcard
+    raw = [ n for n in lookups( '_k' ) if n not in exact and n not in anyl and n not in nonl ]
+    if raw:
+        res.bad( src, raw[0].stmt, 'state.__getitem__: the transition table is consulted with a key other than the encoded symbol / ANY / NON ( %s )' % norm_text( txt( raw[0].own() ))[:70],
+                 "True == 1 and None / True are the sentinels of the wildcard and no-input transitions: looked up as they come, a sentinel finds the transition of the symbol 1 ( b'\\x01' ), and an unencoded symbol finds nothing or the wrong entry" )
+    else:
+        res.ok( src, exact[0].stmt, 'the table is consulted with the encoded symbol, self.ANY and self.NON only' )
     # order: every path to the ANY lookup has tried the exact key; every path to the NON lookup has tried the exact key
     if all( cfg.must_pass( cfg.entry, a, exact, correlated=False ) for a in anyl ) and all( cfg.must_pass( cfg.entry, z, exact, correlated=False ) for z in nonl ):
         res.ok( src, anyl[0].stmt, 'the wildcard and the no-input transition are consulted only after the exact symbol failed' )
